@@ -163,6 +163,20 @@ def parse_cbmc_text(out):
 TAG = re.compile(r'\[(C\d\d)\]')
 
 def run_unit(u, keep=False, mutant=None, timeout=None, verbose=False, trace=False):
+    """one verification run; if the SAT back end does not return a verdict for every obligation (status ERROR/UNKNOWN or a
+    time-out) the unit is re-run once with CBMC's built-in CaDiCaL before it is called undecided"""
+    r = _run_unit(u, keep, mutant, timeout, verbose, trace)
+    bad = r['status'] == 'undecided' and ('timeout' in r['reason'] or 'no verdict' in r['reason'])
+    if bad and not u.get('solver') and os.environ.get('VERIF_SOLVER', 'kissat') == 'kissat':
+        u2 = dict(u)
+        u2['solver'] = ['--sat-solver', 'cadical']
+        r2 = _run_unit(u2, keep, mutant, timeout, verbose, trace)
+        r2['reason'] = (r2['reason'] + ' [second attempt with cadical after: ' + r['reason'][:80] + ']').strip()
+        r2['solver_s'] = round(r2.get('solver_s', 0) + r.get('solver_s', 0), 2)
+        return r2
+    return r
+
+def _run_unit(u, keep=False, mutant=None, timeout=None, verbose=False, trace=False):
     """-> dict(status=ok|fail|undecided, obligations=[...], ...)"""
     t0 = time.time()
     tmp = tempfile.mkdtemp(prefix='mpir-verif.%s.' % u['name'], dir=os.environ.get('TMPDIR', '/tmp'))
@@ -253,6 +267,11 @@ def run_unit(u, keep=False, mutant=None, timeout=None, verbose=False, trace=Fals
             return res
         if any('ignoring' in m for m in (st[1] if st else [])):
             res['reason'] = 'cbmc ignored a quantifier'
+            return res
+        nund = sum(1 for o in obs if o['status'] not in ('SUCCESS', 'FAILURE'))
+        if nund and not nfail:
+            res['reason'] = 'no verdict for %d obligations (solver status %s)' % (nund, sorted(set(o['status'] for o in obs if o['status'] not in ('SUCCESS', 'FAILURE'))))
+            res['status'] = 'undecided'
             return res
         res['status'] = 'fail' if nfail else 'ok'
         return res
